@@ -75,6 +75,8 @@ def run(ctx):
     _reuse(ctx, _c07.run, ("C07.opts",), "C06tgt", "option rule shared with C07: a target-efficiency setter that leaves the ramp flag and the stored value inconsistent makes "
            "current_target_efficiency index a float (the run raises) or use a stale ramp")
     from . import c11 as _c11
+    _reuse(ctx, _c11.run, ("C11.restore",), "C06res", "restore rule shared with C11: the step cap counts iterations, so a resumed run must continue from the checkpointed iteration and temperature",
+           only=lambda f: "iteration" in f.key or "beta" in f.key)
     _reuse(ctx, _c11.run, ("C11.snapshot",), "C06ckpt", "snapshot rule shared with C11: a checkpoint that shares the live temperature list makes a resumed run skip or repeat a step")
     _reuse(ctx, lambda c: _c08.inf_rule(c), ("C08.inf",), "C06w", "incremental-weight rule shared with C08: a NaN weight makes log_weights raise inside determine_beta / resample")
     smc = repo.cls(SMC)
